@@ -60,7 +60,7 @@ inductive Inst where
   | wild (nodes : List Node)
   | seqR (rounds : List (List Inst))
   | choiceR (rounds : List (Nat × Inst))
-  | allR (members : List Inst) (other : List Node) (dropped : List Node)
+  | allR (members : List Inst) (other : List Node)
   | groupR (rounds : List Inst)
   | failed                                   -- lax mode: the child raised and was recorded as None
 /-- what one element node decoded to -/
@@ -86,6 +86,16 @@ def memberTags : List Particle → List QName
   | [] => []
   | .elem q _ _ _ :: ps => q :: memberTags ps
   | _ :: ps => memberTags ps
+
+/-- distinct tags of a node list, in order of first appearance (`values` of `All.parse_xmlelements`
+is a dict keyed by tag: insertion order) -/
+def tagsInOrder : List Node → List QName → List QName
+  | [], _ => []
+  | x :: xs, seen => if seen.contains x.tag then tagsInOrder xs seen else x.tag :: tagsInOrder xs (x.tag :: seen)
+
+/-- the per-tag queues of an `xsd:all`, concatenated in dict order -/
+def byTag (order : List QName) (pool : List Node) : List Node :=
+  order.flatMap fun t => pool.filter fun x => x.tag == t
 
 def Particle.isOrderIndicator : Particle → Bool
   | .seq .. => true
@@ -114,8 +124,10 @@ def parseP : Nat → Mode → Particle → List Node → Except Err (Out Inst)
     let mine := xs.filter fun x => tags.contains x.tag
     let others := xs.filter fun x => !(tags.contains x.tag)
     let r ← allMembers gas m ps mine
-    if consumeOther then pure ⟨.allR r.val.1 others r.val.2, [], r.calls + 1⟩
-    else pure ⟨.allR r.val.1 [] r.val.2, others, r.calls + 1⟩
+    -- what the members did not consume (occurrences beyond maxOccurs) is handed back to the deque
+    let back := others ++ byTag (tagsInOrder mine []) r.rest
+    if consumeOther then pure ⟨.allR r.val back, [], r.calls + 1⟩
+    else pure ⟨.allR r.val [], back, r.calls + 1⟩
   | gas + 1, m, .group p _ max, xs => do
     let r ← groupLoop gas m p max.limit xs
     pure ⟨.groupR r.val, r.rest, r.calls + 1⟩
@@ -227,24 +239,25 @@ def choiceOptions : Nat → Mode → List Particle → Nat → List Node → Exc
         | none => if consumed > 0 then some (i, r.val, consumed) else none
       pure ⟨best, xs, r.calls + others.calls⟩
 
-/-- members of an `xsd:all`, each on the nodes carrying its tag; returns instances and dropped nodes -/
-def allMembers : Nat → Mode → List Particle → List Node → Except Err (Out (List Inst × List Node))
+/-- members of an `xsd:all`, each on the queue of nodes carrying its tag (`values[tag]`: one queue
+per tag, shared by members that carry the same tag); `rest` is what is left in the queues -/
+def allMembers : Nat → Mode → List Particle → List Node → Except Err (Out (List Inst))
   | 0, _, _, _ => .error .outOfGas
-  | _ + 1, _, [], xs => pure ⟨([], []), xs, 0⟩
-  | gas + 1, m, p :: ps, xs =>
+  | _ + 1, _, [], pool => pure ⟨[], pool, 0⟩
+  | gas + 1, m, p :: ps, pool =>
     match p with
     | .elem q _ _ _ =>
-      let sub := xs.filter fun x => x.tag == q
+      let sub := pool.filter fun x => x.tag == q
       if sub.isEmpty then do
-        let r ← allMembers gas m ps xs
-        pure ⟨(.elems [] :: r.val.1, r.val.2), r.rest, r.calls⟩
+        let r ← allMembers gas m ps pool
+        pure ⟨.elems [] :: r.val, r.rest, r.calls⟩
       else do
         let mine ← parseP gas m p sub
-        let r ← allMembers gas m ps xs
-        pure ⟨(mine.val :: r.val.1, mine.rest ++ r.val.2), r.rest, mine.calls + r.calls⟩
+        let r ← allMembers gas m ps ((pool.filter fun x => !(x.tag == q)) ++ mine.rest)
+        pure ⟨mine.val :: r.val, r.rest, mine.calls + r.calls⟩
     | _ => do
-      let r ← allMembers gas m ps xs
-      pure ⟨(.failed :: r.val.1, r.val.2), r.rest, r.calls⟩
+      let r ← allMembers gas m ps pool
+      pure ⟨.failed :: r.val, r.rest, r.calls⟩
 
 /-- `Group.parse_xmlelements` -/
 def groupLoop : Nat → Mode → Particle → Nat → List Node → Except Err (Out (List Inst))
